@@ -22,6 +22,8 @@ def mesh_from_arrays(groups, coords):
     for et, connect in groups:
         et = ElemType[et]
         d[et] = GroupElemFactory.Create(et, np.asarray(connect, dtype=int), coords)
+        if coords.dtype != object:
+            d[et].Get_connect_n_e()  # connectivity helper built by the unmodified scipy code (as gmsh-made meshes have it)
     return Mesh(d)
 
 
